@@ -10,7 +10,7 @@
    ample fuel and reports any exhaustion. *)
 From Coq Require Import List Arith Bool Lia.
 Import ListNotations.
-From TF Require Import Base.Hier Base.Ty Sub.SubSpec Lam.Term Lam.Primitive Lam.Confluence Lam.Typing.
+From TF Require Import Base.Hier Base.Ty Sub.SubSpec Lam.Term Lam.Primitive Lam.Confluence Lam.Typing Lam.TypingPinned.
 
 (* the result is reached by replacing composite operators by their definitions
    and contracting applications of abstractions, and contains no composite
@@ -105,6 +105,20 @@ Theorem C15_validated_closed : forall H (L : lang) (opty srcty : nat -> ty -> Pr
   validates H L opty srcty -> (forall o b, L o = Some b -> exists T, opty o T) -> closed_lang L.
 Proof. exact validates_closed. Qed.
 Print Assumptions C15_validated_closed.
+
+(* About the PINNED code (before proposed_fixes/C15.diff), separately named:
+   Operator.validate compared the declared type with the inferred one the
+   other way round (declared <= inferred, [validates_pinned]).  That discipline
+   does not preserve types: wide : B0 ** B1 = λx. low x  with  low : B1 ** B1,
+   B1 <= B0  passes it, the bare use  wide : B0 ** B1  is well-typed, and its
+   expansion  λx. low x  does not have that type.  (Replayed on the
+   implementation by the corpus expressions `wide`, `wide s0` of harness/c15.py.) *)
+Theorem C15_pinned_validate_refuted :
+  exists (H : hier) (L : lang) (opty srcty : nat -> ty -> Prop) (e e' : tm) (T : ty),
+    wf_hier H /\ validates_pinned H L opty srcty /\
+    has_ty H opty srcty [] e T /\ step L e e' /\ ~ has_ty H opty srcty [] e' T.
+Proof. exact pinned_validate_refuted. Qed.
+Print Assumptions C15_pinned_validate_refuted.
 
 (* ---- Non-vacuity ------------------------------------------------------
    Language: primitive add(0), f(1); composite add1(2) = λx. add x one,
